@@ -137,13 +137,40 @@ pub fn ref_lex(text: &str, t: &[OpCfg]) -> Option<String> {
     Some(out.join(" "))
 }
 
+/// one time in three: a unary-only operator or a constant whose name EXTENDS the name of a binary
+/// operator of the table (`+`/`++`, `-`/`-inf`, `mod`/`modsq`): the longest matching name must win
+/// whatever the roles are
+fn with_prefix_pairs(r: &mut Rng, mut t: Vec<OpCfg>) -> Vec<OpCfg> {
+    if !r.chance(1, 3) {
+        return t;
+    }
+    let bins: Vec<String> = t.iter().filter(|c| c.bin.is_some()).map(|c| c.name.clone()).collect();
+    if bins.is_empty() {
+        return t;
+    }
+    let base = bins[r.below(bins.len())].clone();
+    let alpha = base.chars().all(|c| c.is_alphanumeric() || c == '_');
+    let suffix = if alpha { *r.pick(&["sq", "2", "_x"]) } else { *r.pick(&["+", "-", "inf", "~", "="]) };
+    let name = format!("{}{}", base, suffix);
+    if t.iter().any(|c| c.name == name) {
+        return t;
+    }
+    if r.chance(1, 2) {
+        t.push(OpCfg { name, bin: None, un: true, konst: false });
+    } else {
+        t.push(OpCfg { name, bin: None, un: false, konst: true });
+    }
+    t
+}
+
 pub fn gen(r: &mut Rng, _tier: &str, i: usize, stats: &mut BTreeMap<String, u64>) -> String {
     let t = gen_table(r);
+    let t = with_prefix_pairs(r, t);
     let fam = i % 6;
     let text = match fam {
         0 => {
             // operator / constant name, extended by an identifier character or not
-            let op = &t[r.below(t.len())];
+            let op = if r.chance(1, 3) { &t[t.len() - 1] } else { &t[r.below(t.len())] };
             let ext = if r.chance(1, 2) { *r.pick(IDENT_EXT) } else { *r.pick(NON_IDENT_EXT) };
             let pre = *r.pick(&["", "1 ", "(", "x", "x ", "2"]);
             format!("{}{}{}", pre, op.name, ext)
